@@ -430,6 +430,12 @@ class Gen:
                     d.append('%s %s' % (c, fmt(self.c(-10, 40) if c.isupper() else self.c(-8, 8))))
             if r.chance(0.4):
                 d.append(r.choice('zZ'))
+                if r.chance(0.5):      # segments after a closepath continue from the start point of the path
+                    for _ in range(r.range(1, 2)):
+                        c = r.choice('lhvm')
+                        d.append('%s %s %s' % (c, fmt(self.c(-8, 8)), fmt(self.c(-8, 8))) if c in 'lm' else '%s %s' % (c, fmt(self.c(-8, 8))))
+                        if c == 'm':
+                            d.append('%s %s' % (r.choice('hv'), fmt(self.c(-8, 8))))
             a.append(('d', ' '.join(d)))
         elif k == 'text':
             a += [('x', fmt(x)), ('y', fmt(y))]
